@@ -148,3 +148,49 @@ def check_session(name, seed=0, result=None):
             if rec['scores'] != {side: s, other: -s} and rec['scores'] != {other: -s, side: s}:
                 bad.append(('C08', f'{where}: scores {rec["scores"]}, the rules give {side} {s}'))
     return bad, r
+
+
+def check_replicas(name, seed=0, result=None):
+    """C11 (network clients): every bundled client's local auction and single-seat observer of every board must agree with
+    the table manager's log on contract, declarer, trick history (leaders and cards), trick counts, and be finished."""
+    import json
+    from bridge_env import Pair
+    from harness import sessions
+    boards, mk = sessions.session(name, seed)
+    specs = mk()
+    r = result or sessions.record(name, seed)
+    bad = []
+    if not r.get('completed'):
+        return ['session did not complete'], r
+    if any(v != 'End of session' for k, v in r['clients'].items()):
+        bad.append(f'a bundled client did not complete the session: {r["clients"]}')
+    doc = json.loads(r['log_text'])['logs']
+    per_client = {}
+    for key, kind, obj in r['replicas']:
+        per_client.setdefault(key, {'auction': [], 'play': []})[kind].append(obj)
+    played = [rec for rec in doc if rec['contract'] != 'Passed_out']
+    for key, d in sorted(per_client.items()):
+        if len(d['auction']) != len(doc):
+            bad.append(f'{key}: followed {len(d["auction"])} auctions, the session had {len(doc)} boards')
+            continue
+        for rec, bp in zip(doc, d['auction']):
+            c = bp.contract()
+            if c is None:
+                bad.append(f'{key} board {rec["board_id"]}: client\'s auction has not ended')
+            elif str(c) != rec['contract'] or (None if c.declarer is None else str(c.declarer)) != rec['declarer'] or str(c.vul) != rec['vulnerability'] \
+                    or [str(b) for b in bp.bid_history] != rec['bid_history']:
+                bad.append(f'{key} board {rec["board_id"]}: client holds {c.str_info()} / {[str(b) for b in bp.bid_history]}, the log says {rec["contract"]} by {rec["declarer"]}')
+        if len(d['play']) != len(played):
+            bad.append(f'{key}: followed {len(d["play"])} plays, the session had {len(played)} played boards')
+            continue
+        for rec, env in zip(played, d['play']):
+            hist = [(str(h.leader), [str(x) for x in h.cards]) for h in env.playing_history.history]
+            want = [(t['leader'], t['cards']) for t in rec['play_history']]
+            side = Pair.NS if rec['declarer'] in ('N', 'S') else Pair.EW
+            if hist != want:
+                bad.append(f'{key} board {rec["board_id"]}: client\'s trick history differs from the table manager\'s')
+            if env.taken_tricks[side] != rec['taken_trick'] or sum(env.taken_tricks.values()) != 13 or not env.has_done():
+                bad.append(f'{key} board {rec["board_id"]}: client counts {dict(env.taken_tricks)}, the log says {rec["taken_trick"]} for declarer')
+            if str(env.contract) != rec['contract'] or str(env.declarer) != rec['declarer']:
+                bad.append(f'{key} board {rec["board_id"]}: client plays {env.contract} by {env.declarer}')
+    return bad, r
